@@ -104,3 +104,7 @@ mod tests {
         }
     }
 }
+
+#[cfg(all(test, pendulum_project_ntpd_rs_verif))]
+#[path = "/verif/harness/ntp-proto/hook_cookiestash.rs"]
+mod verif_hook;
